@@ -4,11 +4,13 @@
     extracted inductive types. *)
 From Coq Require Import extraction.Extraction extraction.ExtrOcamlBasic.
 From LC Require Import Spec.Term Spec.Subst Spec.Beta Spec.Strategies Spec.Positions Spec.Predicates
-  Model.Reduction Model.TermOps.
+  Spec.Chars Spec.Grammar Spec.Printing Model.Reduction Model.TermOps Model.Parser Model.Display.
 Set Extraction Optimize.
 Extraction "lc_model.ml"
   term_eqb size subst shift inst beta_sub step_of iter nf_of nfb whnfb wnfb hnfb
   fv has_ud closed has_fv_spec supercombb max_depth_spec pos_step reducts spine_reducts
   apply_m reduce_m beta_fn run_history
   unvar unabs unapp lhs rhs set_var set_abs set_app_l set_app_r abs_macro app_macro abs_c app_c
-  has_free_variables max_depth is_isomorphic_to is_supercombinator.
+  has_free_variables max_depth is_isomorphic_to is_supercombinator
+  parse tokenize_dbr tokenize_cla convert_classic_tokens get_ast fold_exprs display debug
+  ref_parse ref_print_cla ref_print_dbr canon indices_in classify.
